@@ -21,7 +21,7 @@ RULE = ("random construction histories per context: symbols (several types, repe
         "shipped algorithms under the contract. distinct_nontrivial = distinct structural-key shapes (kind, operand kinds / value type+class) for which a "
         "repeated construction (same structural key seen before) was observed")
 ASSUME = ["CPython object identity; struct/ numpy byte views give exact bit patterns"]
-REQUIRE = ["evaluations", "contract:Context._register_expression:evaluated", "events:repeat", "events:new", "e2e:executed", "shipped:traced", "long-history:expressions"]
+REQUIRE = ["evaluations", "contract:Context._register_expression:evaluated", "events:repeat", "events:new", "e2e:executed", "shipped:traced", "long-history:expressions", "spellings:requests"]
 
 
 def value_key(v):
@@ -41,6 +41,8 @@ def value_key(v):
         if isinstance(v, numpy.complexfloating) and numpy.isnan(v):
             # a NaN part is one value whatever its sign / payload; the other part keeps its exact bits
             return (t.__name__, "nan", tuple("nan" if numpy.isnan(p_) else p_.tobytes() for p_ in (v.real, v.imag)))
+        if isinstance(v, numpy.longdouble) and v.dtype.itemsize == 16 and numpy.finfo(numpy.longdouble).nmant == 63:
+            return (t.__name__, v.tobytes()[:10])  # x87 extended: 10 value bytes + 6 bytes of padding that are not part of the value
         return (t.__name__, v.tobytes())
     if isinstance(v, int):
         return ("int", v)
@@ -176,6 +178,15 @@ def rand_value(rnd):
             numpy.float32("nan"), numpy.float64("nan"), numpy.float16("nan")]
     if c > 0.93:
         return rnd.choice(nans)
+    if c > 0.86:
+        # neighbours: values of one numpy type that differ in the last bit(s) - also of the widest native type, whose values no Python float can tell apart
+        ld = numpy.longdouble
+        wide = [ld(1), ld(1) + ld(2) ** -60, ld(1) - ld(2) ** -61, ld(1) / 3, ld(float(ld(1) / 3)), ld("1e4000"), ld("inf"), -ld("1e4000"), -ld("inf"), ld("1e-400"), ld(0), -ld(0), ld("1e-4940"),
+                ld(2) ** 64 + 1, ld(2) ** 64]
+        near = [numpy.nextafter(numpy.float32(1), numpy.float32(k)) for k in (0, 2)] + [numpy.nextafter(numpy.float64(1), numpy.float64(k)) for k in (0, 2)] + [numpy.nextafter(numpy.float16(1), numpy.float16(k)) for k in (0, 2)]
+        near += [numpy.float32(2 ** 24), numpy.float32(2 ** 24 + 2), numpy.float64(2 ** 53), numpy.float64(2 ** 53 + 2), 2 ** 53, 2 ** 53 + 1, 2 ** 64, 2 ** 64 + 1, numpy.float32(1e-45), numpy.float32(3e-45),
+                 numpy.float64(5e-324), numpy.float64(1e-323), numpy.uint8(200), numpy.int8(-56), numpy.uint8(1), numpy.int8(1), numpy.uint32(1), numpy.int32(1), numpy.uint64(2 ** 63), numpy.int64(-2 ** 63)]
+        return rnd.choice(wide + near)
     special = [float("nan"), float("inf"), -float("inf"), numpy.float32("nan"), numpy.float64("inf"), "pi", "largest", "smallest", "eps", "posinf", "neginf", "nan", 2, 2.0, 0.5, -1, -1.0, 3, numpy.float32(0.5), numpy.int8(2)]
     if c < 0.3:
         return rnd.choice(zeros)
@@ -192,7 +203,7 @@ def build_history(rnd, ctx, n, rec):
     """random interleaved constructions; returns list of nodes"""
     from functional_algorithms import Expr
 
-    types_ = ["float32", "float64", "float", "complex64", "complex128", "boolean", "int64"]
+    types_ = ["float32", "float64", "float", "complex64", "complex128", "boolean", "int64", "int32", "uint32", "uint64", "int8", "uint8", "int16", "uint16", "float16", numpy.uint8, numpy.int8, numpy.uint32, numpy.int32]
     syms = []
     for name in ("x", "y", "z"):
         syms.append(ctx.symbol(name, rnd.choice(types_[:3])))
@@ -448,7 +459,63 @@ def task_shipped(params, rec):
     contracts.detach_all()
 
 
-TASKS = {"histories": task_histories, "e2e": task_e2e, "shipped": task_shipped, "long": task_long}
+SIZED = ["float16", "float32", "float64", "complex64", "complex128", "int8", "int16", "int32", "int64", "uint8", "uint16", "uint32", "uint64", "boolean"]
+
+
+def spelling_name(sp):
+    """the harness's own reading of a type spelling, independent of Type.fromobject: sized numeric names only (unsized float/int/complex and the platform's
+    long double are left out - whether those alias a sized type is not claimed here)"""
+    n = sp if isinstance(sp, str) else sp.__name__
+    n = {"bool": "boolean", "bool_": "boolean"}.get(n, n)
+    return n if n in SIZED else None
+
+
+def task_spellings(params, rec):
+    """request-level monitor: the type of a symbol, and the reference type of a constant, as REQUESTED.  The structural key the other monitors use is read
+    off the result, so two types merged inside Type.fromobject (say a signedness or a width dropped) would look the same to them; here what was asked for is
+    compared: same name + differently sized / signed type -> different object; same request -> same object"""
+    import functional_algorithms as fa
+
+    rnd = random.Random(f"c07-sp-{params['seed']}")
+    spell = list(SIZED) + [getattr(numpy, n) for n in SIZED if n != "boolean"] + ["bool", bool]
+    values = [200, 1, 0, 1.5, 0.0, -0.0, True, numpy.float32(1), "pi", "largest"]
+    for h in range(params["histories"]):
+        ctx = fa.Context(paths=[fa.algorithms])
+        seen = {}
+        for _ in range(params["n"]):
+            sp = rnd.choice(spell)
+            cn = spelling_name(sp)
+            if rnd.random() < 0.5:
+                req = ("symbol", rnd.choice("nxy"), cn)
+                try:
+                    e = ctx.symbol(req[1], sp)
+                except Exception as ex:  # a spelling the package refuses is not an identity matter
+                    rec.count("spellings:refused:" + type(ex).__name__)
+                    continue
+            else:
+                v = rnd.choice(values)
+                req = ("constant", value_key(v), cn)
+                try:
+                    e = ctx.constant(v, sp)
+                except Exception as ex:
+                    rec.count("spellings:refused:" + type(ex).__name__)
+                    continue
+            rec.count("evaluations")
+            rec.count("spellings:requests")
+            rec.cls("spelling", req[0], cn, "repeat" if req in seen else "new")
+            if req in seen:
+                if seen[req] is not e:
+                    rec.violation("same-request-different-object:" + req[0], dict(request=repr(req), first=describe(seen[req]), second=describe(e)))
+            else:
+                for r2, e2 in seen.items():
+                    if e2 is e:
+                        rec.violation("aliased-different-type:" + req[0], dict(request=repr(req), earlier_request=repr(r2), object=describe(e)))
+                        break
+                seen[req] = e
+    rec.sample(dict(kind="type spellings", spellings=[str(x) for x in spell[:8]], histories=params["histories"]))
+
+
+TASKS = {"histories": task_histories, "e2e": task_e2e, "shipped": task_shipped, "long": task_long, "spellings": task_spellings}
 
 
 def plan(tier, seed):
@@ -462,6 +529,7 @@ def plan(tier, seed):
         t += [("e2e", dict(seed=seed, shard=s, histories=20000)) for s in range(8)]
         t += [("long", dict(seed=seed, shard=s, n=(1 << 17) + 30000)) for s in range(2)] + [("long", dict(seed=seed, shard=2 + s, n=(1 << 20) + 200000)) for s in range(2)] + [("long", dict(seed=seed, shard=4, n=(1 << 21) + 100000))]
     t += [("shipped", dict(shard=s, nshards=5)) for s in range(5)]
+    t += [("spellings", dict(seed=seed, histories=40 if tier == "quick" else 2000, n=400))]
     return t
 
 
